@@ -23,6 +23,9 @@ func runC07(p *eng.Prog, r *eng.Report, tier string) {
 	c07Default(c)
 	c07Detector(c)
 	c07Fallback(c)
+	c07ServeEOF(c)
+	// a response whose rest is not read is parsed as top-level stanzas, which get replies
+	handoffDrained(c, "C07.7")
 }
 
 func c07Default(c *cx) {
@@ -388,4 +391,52 @@ func c07Fallback(c *cx) {
 			c.r.Check(id, fn, "nopHandler body", "K: the default for messages, presences and other elements does nothing", fn.Pos(), len(calls) == 0, "nopHandler calls something")
 		}
 	}
+}
+
+// c07ServeEOF: Serve ends silently (returns nil without a stream error) only
+// when handleInputStream returned io.EOF itself, the mark of the end of the
+// input stream. An error that merely wraps io.EOF (a handler that ran out of
+// tokens and wrapped the error) is a failure and must end in a stream error.
+func c07ServeEOF(c *cx) {
+	id := "C07.5"
+	f := c.fn(id, "", "(*Session).Serve")
+	if f == nil {
+		return
+	}
+	g := f.Graph()
+	calls := f.Calls("xmpp.handleInputStream")
+	hc, ok := one(c, id, f, "call of handleInputStream in Serve", calls)
+	if !ok {
+		return
+	}
+	hpt, _ := g.Where(hc)
+	hn := f.Norm(hc, &hpt)
+	n := 0
+	for _, rs := range g.Returns {
+		pt, _ := g.Where(rs)
+		if g.RetKindOf(rs) != eng.RetSuccess || !g.Reachable(g.After(hpt), pt, nil, func(q eng.Point, nd ast.Node) bool { return containsNode(nd, hc) }) {
+			continue
+		}
+		n++
+		okd, why := g.Dominated(pt, "eq("+hn+",var:io.EOF)")
+		if !okd {
+			// errors.Is in Serve is as good only if the handler-error edge of
+			// handleInputStream replaces wrapped EOFs too
+			if okIs, _ := g.Dominated(pt, "errors.Is("+hn+",var:io.EOF)"); okIs {
+				if hi := c.fn(id, "", "handleInputStream"); hi != nil {
+					for _, cl := range hi.Calls("xmpp.Handler.HandleXMPP") {
+						hp, _ := hi.Graph().Where(cl)
+						if len(hi.Graph().EdgesMatching("errors.Is("+hi.Norm(cl, &hp)+",var:io.EOF)")) > 0 {
+							okd = true
+						}
+					}
+				}
+				if !okd {
+					why = "Serve tests errors.Is(err, io.EOF) but handleInputStream replaces only an io.EOF identical to the handler's error: a handler error that wraps io.EOF ends the session silently"
+				}
+			}
+		}
+		c.r.Check(id, f, "silent end of Serve", "G: after a step, Serve returns without a stream error only on the edge 'handleInputStream(...) == io.EOF' (identity, not errors.Is: wrapped EOFs come from handlers)", rs.Pos(), okd, why)
+	}
+	c.r.Floor(id, "silent returns after a step in Serve", n, 1)
 }
